@@ -159,7 +159,8 @@ func (r *headerRange[H]) rangeAmount(end uint64) uint64 {
 	}
 
 	amnt := uint64(len(r.headers))
-	if r.start+amnt >= end {
+	if r.start+amnt > end {
+		// the range goes beyond 'end'
 		amnt = end - r.start + 1 // + 1 to include 'end' as well
 	}
 
